@@ -340,6 +340,9 @@ func ruleDeclaredSizes(p *Prog, r *Report) {
 			}
 		}
 		key := rule + ":sml.parseDataItem:bounds-flow"
+		if done := boundsFlowByEvaluation(p, r, rule, key, fn); done {
+			goto sizeForEveryType
+		}
 		switch {
 		case len(bad) > 0:
 			r.bad(rule, key, p.Pos(fn.Pos()), strings.Join(uniq(bad), "; "))
@@ -348,6 +351,7 @@ func ruleDeclaredSizes(p *Prog, r *Report) {
 		default:
 			r.ok(rule, key, p.Pos(fn.Pos()), "the bounds parsed from the size token reach parseASCII and the size check in (lower, upper) order, with the token for the diagnostic")
 		}
+	sizeForEveryType:
 		// the size check is applied whatever the item type is
 		key2 := rule + ":sml.parseDataItem:size-check-for-every-type"
 		var missing []string
@@ -1034,5 +1038,63 @@ func onlyIndexedOrSliced(leaks []string) bool {
 			return false
 		}
 	}
+	return true
+}
+
+// boundsFlowByEvaluation: the item parser evaluated on items with a size
+// declaration - the bounds of an ASCII variable are (lower, upper) as written,
+// and an item is diagnosed exactly when its size lies outside them. done is
+// false when an evaluation does not decide; the argument-flow rule is used.
+func boundsFlowByEvaluation(p *Prog, r *Report, rule, key string, fn *ssa.Function) bool {
+	type sample struct {
+		text    string
+		lo, hi  int64 // expected bounds of the variable; -2: no variable
+		diagnos bool
+	}
+	samples := []sample{
+		{"<A [2..5] v>", 2, 5, false}, {"<A [3] v>", 3, 3, false}, {"<A [7..] v>", 7, -1, false}, {"<A [..9] v>", 0, 9, false},
+		{`<A [2..5] "abc">`, -2, 0, false}, {`<A [2..5] "a">`, -2, 0, true}, {`<A [2..5] "abcdef">`, -2, 0, true},
+		{`<A [2..5] "ab">`, -2, 0, false}, {`<A [2..5] "abcde">`, -2, 0, false},
+		{"<U1 [2] 1 2>", -2, 0, false}, {"<U1 [3] 1 2>", -2, 0, true}, {"<U1 [1..2] 1 2>", -2, 0, false}, {"<U1 [3..4] 1 2>", -2, 0, true}, {"<U1 [..1] 1 2>", -2, 0, true},
+		{"<U1 [2..] 1 2>", -2, 0, false}, {"<U1 [3..] 1 2>", -2, 0, true},
+		{"<L [1] <U1 1>>", -2, 0, false}, {"<L [2] <U1 1>>", -2, 0, true}, {"<B [2] 1 2>", -2, 0, false}, {"<B [1] 1 2>", -2, 0, true},
+	}
+	var bad []string
+	for _, sm := range samples {
+		toks, ok := lexAll(p, "lexMessageText", sm.text, 400)
+		if !ok {
+			return false
+		}
+		obs, diags, ok := parseRun(p, fn, toks, 4)
+		if !ok || len(obs) == 0 {
+			return false
+		}
+		for _, d := range diags {
+			if d == "?" {
+				return false
+			}
+		}
+		if sm.lo != -2 {
+			o := obs[0]
+			if o.factory != "NewASCIINodeVariable" || len(o.args) != 3 || o.args[1].K != KInt || o.args[2].K != KInt {
+				return false
+			}
+			if o.args[1].I.Int64() != sm.lo || o.args[2].I.Int64() != sm.hi {
+				bad = append(bad, fmt.Sprintf("%s builds a variable with the bounds (%s, %s), expected (%d, %d)", sm.text, o.args[1], o.args[2], sm.lo, sm.hi))
+			}
+		}
+		if got := len(diags) > 0; got != sm.diagnos {
+			if sm.diagnos {
+				bad = append(bad, fmt.Sprintf("%s is not diagnosed although the item's size lies outside the declared bounds", sm.text))
+			} else {
+				bad = append(bad, fmt.Sprintf("%s is diagnosed (%s) although the item's size lies within the declared bounds", sm.text, strings.Join(diags, "|")))
+			}
+		}
+	}
+	if len(bad) > 0 {
+		r.bad(rule, key, p.Pos(fn.Pos()), strings.Join(firstN(bad, 3), "; "))
+		return true
+	}
+	r.ok(rule, key, p.Pos(fn.Pos()), fmt.Sprintf("the item parser evaluated on %d items with a size declaration: an ASCII variable gets (lower, upper) as written, and an item is diagnosed exactly when its size lies outside the declared bounds (both ends, open ends, lists, binary and numeric items)", len(samples)))
 	return true
 }
